@@ -25,6 +25,7 @@ fn prefix_cfg(t: Tier) -> HistCfg {
     c.churn_pow = t.pick(14, 17);
     c.burst_pow = t.pick(10, 13);
     c.zeros = false;
+    c.zeros_share = 3;
     c.boundary_share = 1;
     c.w_rebuild = 0;
     c.w_read = 0;
@@ -51,6 +52,12 @@ fn case(t: Tier) -> BoxedStrategy<Case> {
             ccfg.w_cancel = 8;
             ccfg.w_upd_qty = 8;
             ccfg.w_bulk = 1;
+            // (a prefix with orders that show nothing gets continuations that amend them back to life)
+            ccfg.zeros = prefix.zeros;
+            ccfg.zeros_share = 0;
+            if prefix.zeros {
+                ccfg.w_upd_qty = 24;
+            }
             let profile = prefix.profile;
             (Just(prefix), 0u8..4, proptest::collection::vec(op_strategy(ccfg, profile), 1..=8))
         })
@@ -78,7 +85,10 @@ pub fn eval(c: &Case, st: &mut Stats, excuse_kf: bool) -> Result<Verdict, String
         return Ok(Verdict { strict: false, differs: false, nontrivial: false });
     }
     let resting: Vec<OrderId> = it.model.iter().map(|e| e.id).collect();
+    let it_resting_ts: Vec<(u64, OrderId)> = it.model.iter().map(|e| (e.cur.timestamp(), e.id)).collect();
     let stale_at_snapshot: HashSet<OrderId> = it.stale_possible.clone();
+    // the original's ticket queue at the snapshot, when the interpreter tracked it exactly
+    let tq_at_snapshot: Option<Vec<OrderId>> = it.tq.as_ref().map(|q| q.iter().copied().collect());
     // snapshot and restore
     let snapshot = it.level.snapshot();
     let path_name = ["from_snapshot", "From<&PriceLevelSnapshot>", "snapshot package", "snapshot JSON"][c.path as usize % 4];
@@ -157,7 +167,25 @@ pub fn eval(c: &Case, st: &mut Stats, excuse_kf: bool) -> Result<Verdict, String
     let res_l: Vec<OpResult> = it.concrete_results[k0..].iter().map(normalise).collect();
     let calls: Vec<Concrete> = it.concrete[k0..].to_vec();
     let readds_stale = calls.iter().any(|c| matches!(c, Concrete::Add(o) if stale_at_snapshot.contains(&o.id())));
-    let strict = increasing && no_stale_resting && !readds_stale;
+    let strict = match &tq_at_snapshot {
+        // exact: the restored level queues the resting orders once each, by timestamp; the original
+        // behaves the same iff its own tickets - those of resting ids and of ids the continuation
+        // adds again - are exactly that sequence
+        Some(tq) => {
+            st.count("strictness/from_tracked_ticket_queue");
+            let resting_set: HashSet<OrderId> = resting.iter().copied().collect();
+            let readded: HashSet<OrderId> = calls.iter().filter_map(|c| if let Concrete::Add(o) = c { Some(o.id()) } else { None }).collect();
+            let live: Vec<OrderId> = tq.iter().filter(|id| resting_set.contains(id) || readded.contains(id)).copied().collect();
+            let mut by_ts: Vec<(u64, OrderId)> = it_resting_ts.clone();
+            by_ts.sort_by_key(|x| x.0);
+            let no_ties = by_ts.windows(2).all(|w| w[0].0 < w[1].0);
+            no_ties && live == by_ts.iter().map(|x| x.1).collect::<Vec<_>>()
+        }
+        None => {
+            st.count("strictness/from_one_unit_probes");
+            increasing && no_stale_resting && !readds_stale
+        }
+    };
     // ... and the same concrete calls on the restored and the fresh level
     let gen_r = UuidGenerator::new(uuid::Uuid::from_u128(0x5eed));
     let gen_f = UuidGenerator::new(uuid::Uuid::from_u128(0x5eed));
